@@ -281,7 +281,7 @@ def part_calibration(ctx, oq, n):
                     state.update(on=True, sig0=sig0, desc=desc)
                     for b in infer:
                         out = model(b)
-                        o = out.dequantize() if hasattr(out, "dequantize") else out
+                        o = out.dequantize() if hasattr(out, "qtype") else out
                         ctx.count("inference_outputs")
                         if not torch.isfinite(oracles.plain(o)).all():
                             kinds = set(seq)
